@@ -701,6 +701,22 @@ func (r *Run) sliceOp(fr *frame, instr *ssa.Slice) Value {
 		r.panicIf(c.Not(c.Cmp(OUle, hi, max)), "slice bounds out of range [:hi] with capacity")
 	}
 	r.panicIf(c.Not(c.Cmp(OUle, lo, hi)), "slice bounds out of range [lo:hi]")
+	if isStr && lo.op != OConst {
+		// s[lo:lo+k] of a string with symbolic lo and constant length k: build the k bytes as symbolic loads
+		// (strings are immutable, so a copy is indistinguishable from a view)
+		if d := c.Bin(OSub, hi, lo); d.op == OConst && int(d.c) <= 16 && length <= r.w.ex.cfg.MaxSymIndex {
+			k := int(d.c)
+			if k == 0 {
+				return Str{}
+			}
+			bs := make([]*Term, k)
+			for j := 0; j < k; j++ {
+				idx := c.Bin(OAdd, lo, c.Const(64, uint64(j)))
+				bs[j] = r.load(Ptr{obj: baseObj, off: baseOff, sym: idx, stride: 1, n: length}, types.Typ[types.Uint8]).(*Term)
+			}
+			return r.mkString(bs)
+		}
+	}
 	l := int(r.Concretize(lo, r.w.ex.cfg.MaxFork, "slice low bound"))
 	h := int(r.Concretize(hi, r.w.ex.cfg.MaxFork, "slice high bound"))
 	m := int(r.Concretize(max, r.w.ex.cfg.MaxFork, "slice max bound"))
